@@ -66,8 +66,12 @@ func fuzzText(r *rand.Rand, typ string) string {
 			return sign() + digits()
 		}
 	case "monetary":
-		asset := core.Pick(r, []string{"USD", "EUR/2", "", "usd", "U S", "USD/"})
-		switch r.IntN(6) {
+		asset := core.Pick(r, []string{"USD", "EUR/2", "", "usd", "U S", "USD/", "USD/2", "JPY/0", "BTC/8", "X/-1", "X/99"})
+		switch r.IntN(8) {
+		case 6:
+			return asset + " " + sign() + digits() + "." + digits()
+		case 7:
+			return asset + " " + digits() + "." + digits() + "." + digits()
 		case 0:
 			return asset + " " + sign() + digits()
 		case 1:
